@@ -100,7 +100,7 @@ PROPS["C02"] = {
 PROPS["C07"] = {
     "imports": JSON_IMPORTS,
     "prelude": "Definition cfg := Cfg{TAG}.cfg.",
-    "level_text": "Theorems over all values at any nesting of code constants and every constant kind: loading the JSON form gives equal data (identical when NaN-free), integers beyond 2^53 travel as decimal strings and come back exactly, the form contains no NaN/Infinity number and no integer beyond 2^53; the model's to_json / from_json are compared with the code on every corpus value (with the text codecs canonicalised); schema validity, the real dumps/loads cycle (json, orjson when present) and identical to_code() are decided by the oracle with an independent validator", "level_note": "schema validity is NOT a Coq theorem (no validator model was built): it is decided by harness/props/jsontools.py against code_data.JSON_SCHEMA on every document; repr/literal_eval, base64 and the JSON text layer are identity stand-ins in the model",
+    "level_text": "Theorems over all values at any nesting of code constants and every constant kind: loading the JSON form gives equal data (identical when NaN-free), integers beyond 2^53 travel as decimal strings and come back exactly, the form contains no NaN/Infinity number and no integer beyond 2^53; the model's to_json / from_json are compared with the code on every corpus value (with the text codecs canonicalised); schema validity is a theorem too (C07_json_validates_against_the_published_schema): for every datum with integers in the interchange range the document validates, under the JSON-Schema validator of Spec/JsonSchema.v, against JSON_SCHEMA as re-translated from code_data/__init__.py on every run (Gen/SrcSchema.v) - a change of the schema or of the document shape breaks the proof; the real dumps/loads cycle (json, orjson when present) and identical to_code() are decided by the oracle, which also validates every document with an independent Python validator and compares the two validators on corrupted documents", "level_note": "the Coq validator covers the keywords the schema uses (type, properties, required, items, anyOf, enum, $ref); description/default/title are annotations; repr/literal_eval, base64 and the JSON text layer are identity stand-ins in the model",
     "trusted_base": COMMON_TB + ["text layer of json/orjson, repr/ast.literal_eval and base64 are outside the model (identity stand-ins, canonicalised by the harness; their round trip is exercised by the oracle)"],
     "assumptions": ["repr/literal_eval and base64 round-trip", "json.dumps/json.loads preserve the type and value of ints, finite floats, strings, lists, dicts"],
     "rule": "every constant kind x every position (operand, default, tuple member, frozenset member, dead-code additional arg, docstring, class docstring), lone surrogates in every string position, "
@@ -123,7 +123,7 @@ PROPS["C09"] = {
 }
 PROPS["C05"] = {
     "imports": VIEW_IMPORTS + " Proofs.C11_Statements Proofs.C01_Statements Proofs.C03_Statements Proofs.C03b_Statements Proofs.C03c_Statements Proofs.NormalFormWf", "prelude": "Definition cfg := Cfg{TAG}.cfg.",
-    "level_text": "Theorem: for every configuration and every code object satisfying view_wf (opcodes known), the normal form of the decoded data reads as the original's instruction stream (opcodes, resolved operands with nested code normalized in turn, jump structure, lines), it is well-formed data, and CPython's disassembler / line reader read the code re-encoded from it as that same stream, with name, filename, first line, stack size and free variables unchanged (composition of C02's decoder theorem, the normal-form well-formedness and C03's encoder theorem). Premises are evaluated on every corpus object (wf-monitor); normalize-then-encode of model and code are compared as full code objects. The behavioural clause (same results, output, exceptions, traced lines) is decided ONLY by executing generated terminating programs before/after: no model of bytecode execution exists here", "level_note": "execution equivalence is not proved: equal symbolic views is the sufficient condition under CPython's fetch-by-index / jump-by-offset rule; flags (CO_NESTED / CO_NOFREE differences) are checked by the oracle's header comparison, not in the theorem", "trusted_base": COMMON_TB + ["CPython's evaluation of bytecode (exec, sys.settrace) for the behavioural clause: outside every theorem"], "assumptions": [],
+    "level_text": "Theorem: for every configuration and every code object satisfying view_wf (opcodes known), the normal form of the decoded data reads as the original's instruction stream (opcodes, resolved operands with nested code normalized in turn, jump structure, lines), it is well-formed data, and CPython's disassembler / line reader read the code re-encoded from it as that same stream, with name, filename, first line, stack size and free variables unchanged (composition of C02's decoder theorem, the normal-form well-formedness and C03's encoder theorem). Premises are evaluated on every corpus object (wf-monitor); normalize-then-encode of model and code are compared as full code objects. The behavioural clause (same results, output, exceptions, traced lines) is proved parametrically (Spec/Exec.v, Proofs/ExecLayout.v): for EVERY interpreter whose per-instruction semantics observes opcode, resolved operand and line only (not distinguishing key-equal constants nor a nested code constant from its normal form), CPython's byte-offset execution of a code object is the index execution of its symbolic view (no premise), and the original and the re-encoded normal form end in the same state with the same outcome after the same (opcode, line) event sequence for every fuel and initial state. That ceval is such an interpreter is an assumption, exercised by executing generated terminating programs before/after (stdout, exception, line trace)", "level_note": "execution equivalence is proved for the class of operand-level interpreters only; CPython's ceval itself is not modelled (no object model, no stack): that it belongs to the class is assumed and tested by execution; flags (CO_NESTED / CO_NOFREE differences) are checked by the oracle's header comparison, not in the theorem", "trusted_base": COMMON_TB + ["CPython's evaluation of bytecode (exec, sys.settrace) for the behavioural clause: outside every theorem"], "assumptions": [],
     "rule": "every corpus / generated code object: symbolic equivalence (dis view, header) of c and normalize().to_code(); generated terminating programs executed with stdout, exception and line trace compared; "
             "distinct = distinct (co_code, name, firstlineno, line table)",
     "replay_hint": "compile data.source (or the named file); c2 = CodeData.from_code(c).normalize().to_code(); compare dis views / exec both",
@@ -165,7 +165,7 @@ PROPS["C06"] = {
 
 PROPS["C03"] = {
     "imports": VIEW_IMPORTS + " Proofs.C11_Statements Proofs.C01_Statements Proofs.C03_Statements Proofs.C03b_Statements Proofs.C03c_Statements", "prelude": "Definition cfg := Cfg{TAG}.cfg.",
-    "level_text": "Theorem (K2) for every configuration and every datum satisfying the boolean data_wf (no private override fields, operand kinds fit the opcodes, jumps designate existing blocks, relative jumps forward): the emitted code object is read back by CPython's disassembler and line reader (Spec/Dis.v, Spec/Lnotab.v) as the data's instruction stream - opcodes, resolved operands (constants up to key equality), jump targets as instruction indices with kind, lines - and the header fields say what the data says; to_code terminates for all data without negative size overrides (real termination proof of the jump-width fix-point); at exit every jump operand is the one the layout requires; gap and collision overrides raise. data_wf and the conclusion are evaluated on every generated datum (wf-monitor); full from_code_data outputs of model and code are compared on hand-built graphs incl. inconsistent overrides", "level_note": "the clause 're-decoding gives the data up to normalization' is decided by the oracle only; data with line_number=None is outside data_wf before 3.10 (the format cannot express it; to_code raises TypeError); a negative _n_args_override makes to_code loop forever (RelaxProofs.relax_diverges) - not well-formed data", "trusted_base": COMMON_TB + ["dis / co_lines / PyCode_Addr2Line of the running interpreter as readers of the emitted code"],
+    "level_text": "Theorem (K2) for every configuration and every datum satisfying the boolean data_wf (no private override fields, operand kinds fit the opcodes, jumps designate existing blocks, relative jumps forward): the emitted code object is read back by CPython's disassembler and line reader (Spec/Dis.v, Spec/Lnotab.v) as the data's instruction stream - opcodes, resolved operands (constants up to key equality), jump targets as instruction indices with kind, lines - and the header fields say what the data says; to_code terminates for all data without negative size overrides (real termination proof of the jump-width fix-point); at exit every jump operand is the one the layout requires; gap and collision overrides raise. data_wf and the conclusion are evaluated on every generated datum (wf-monitor); full from_code_data outputs of model and code are compared on hand-built graphs incl. inconsistent overrides", "level_note": "the clause 're-decoding gives the data up to normalization' is proved on the flattened instruction stream (C03_emitted_code_is_in_the_decoder_domain, C03_redecode_gives_the_stream: the emitted code satisfies view_wf and its decoding reads as the input's stream, constants up to key equality); equality of normal forms including block boundaries and header is compared by the oracle; data with line_number=None is outside data_wf before 3.10 (the format cannot express it; to_code raises TypeError); a negative _n_args_override makes to_code loop forever (RelaxProofs.relax_diverges) - not well-formed data", "trusted_base": COMMON_TB + ["dis / co_lines / PyCode_Addr2Line of the running interpreter as readers of the emitted code"],
     "assumptions": ["line_number is not None on <= 3.9 (the co_lnotab format cannot express 'no line'; to_code raises TypeError there)"],
     "rule": "hand-built block graphs without override fields: 1-7 blocks of 1-260 instructions, absolute jumps in both directions, forward relative jumps, name tables of 3-300 (thorough 70000) entries, "
             "constants with colliding Python values (1/True/1.0, 0.0/-0.0, 'a'/b'a'), lines with deltas around +-127/128/255/300 and None (3.10), all signature shapes; plus gap / collision / negative overrides; "
